@@ -316,7 +316,10 @@ fn judge(plan: &Plan, _tier: Tier) -> Judged {
 						if !is_prefix {
 							bad = Some("store opened and shows a state that is no prefix of the commit order".into());
 						} else if got != pristine {
-							j.count("wal_damage_read_as_shorter_log", 1);
+							// a flipped / overwritten byte is not a torn tail: in AbsoluteConsistency
+							// mode the open must fail rather than end the log early and drop
+							// committed data without an error
+							bad = Some(format!("damaged commit log was read as a shorter log: the store opened without error and shows {} of {} keys of the written state", got.len(), pristine.len()));
 						}
 					}
 				} else {
@@ -385,7 +388,7 @@ pub fn c16() -> CheckDef {
 	CheckDef {
 		id: "C16",
 		level: "fault_enumeration",
-		rule: "a case = a database built by a generated workload (tables on 2-4 levels, a commit log with content, value-log files with full verification in half the cases, per-level compression, tiny blocks), closed cleanly; then for every table / commit-log / value-log file a stratified sample of byte positions (the first and last bytes - header, footer, meta, index - plus a uniform sample; 200 positions per database quick, 1500 thorough): single-bit flip and byte overwrite everywhere, truncation of table files; the real store (AbsoluteConsistency mode) is opened on each damaged copy with a cold cache and every key is read by get, forward scan and backward scan. Oracle: each operation returns exactly the pristine answer or an error (a scan may yield a correct prefix and then fail); no panic, abort (RLIMIT_AS) or hang (watchdog). For commit-log damage the tolerated outcome besides an error is a commit prefix (C12's 'log ends here'). evaluations = damaged databases opened; non-trivial = at least one table file and >=2 commits; distinct = op-log digests",
+		rule: "a case = a database built by a generated workload (tables on 2-4 levels, a commit log with content, value-log files with full verification in half the cases, per-level compression, tiny blocks), closed cleanly; then for every table / commit-log / value-log file a stratified sample of byte positions (the first and last bytes - header, footer, meta, index - plus a uniform sample; 200 positions per database quick, 1500 thorough): single-bit flip and byte overwrite everywhere, truncation of table files; the real store (AbsoluteConsistency mode) is opened on each damaged copy with a cold cache and every key is read by get, forward scan and backward scan. Oracle: each operation returns exactly the pristine answer or an error (a scan may yield a correct prefix and then fail); no panic, abort (RLIMIT_AS) or hang (watchdog). Commit-log damage (bit flip / overwrite, not truncation) must likewise give an error or the full written state: a shorter log read without error is a violation. evaluations = damaged databases opened; non-trivial = at least one table file and >=2 commits; distinct = op-log digests",
 		assumptions: &["damage is applied to files at rest between a clean close and a fresh open (cold cache)", "manifest, lock file and version index are outside the property's file list"],
 		components: "real: all of surrealkv's open / recovery / read path, std::fs; simulated: damage at rest, clock, randomness; stubbed: nothing",
 		cases: |t| match t {
